@@ -1,6 +1,7 @@
 """C18 — cursor semantics of the array-backed formats (HDF5, NetCDF): one operation from an
 arbitrary valid cursor state (total, pos).  The real read/seek/tell/__len__ bytecode runs under
 CrossHair on a fake back end that returns frame ids."""
+import vtlib.xhfix  # noqa: F401  (CrossHair configuration; see module docstring)
 import mdtraj.formats.hdf5 as _h5
 import mdtraj.formats.netcdf as _nc
 from mdtraj.formats.hdf5 import HDF5TrajectoryFile
